@@ -49,3 +49,50 @@ Proof. unfold hash_raw. rewrite link_hash_init. apply link_hash_fold. Qed.
 (* the state stays a 32-bit value *)
 Lemma hash_step_lt h c : hash_step h c < W32.
 Proof. unfold hash_step. cbv zeta. apply N.mod_lt. unfold W32. discriminate. Qed.
+
+(* ---------- opcode numbering and header layout of private/tcp_cache_protocol.h (coq/gen/Gen_tcpproto.v) ---------- *)
+From CppcmsV Require Import C10.Proofs C10.Codec gen.Gen_tcpproto.
+
+Lemma link_opcodes :
+  g_op_fetch = Z.of_N op_fetch /\ g_op_rise = Z.of_N op_rise /\ g_op_clear = Z.of_N op_clear /\
+  g_op_store = Z.of_N op_store /\ g_op_stats = Z.of_N op_stats /\ g_op_error = Z.of_N op_error /\
+  g_op_done = Z.of_N op_done /\ g_op_data = Z.of_N op_data /\ g_op_no_data = Z.of_N op_no_data /\
+  g_op_uptodate = Z.of_N op_uptodate /\ g_op_out_stats = Z.of_N op_out_stats /\
+  NoDup g_opcodes.
+Proof.
+  repeat (split; [reflexivity|]).
+  unfold g_opcodes. repeat (constructor; [cbn; intuition discriminate|]). constructor.
+Qed.
+
+Lemma words_hdr_bytes h : hdr_ok h ->
+  words (hdr_bytes h) = [h_op h; h_size h; h_f0 h; h_f1 h; h_u0 h; h_u1 h; h_u2 h; h_u3 h; h_u4 h; h_u5 h].
+Proof.
+  destruct h as [a b c d e f g i j k]. unfold hdr_ok. cbn [h_op h_size h_f0 h_f1 h_u0 h_u1 h_u2 h_u3 h_u4 h_u5].
+  intros (Ha & Hb & Hc & Hd & He & Hf & Hg & Hi & Hj & Hk).
+  unfold hdr_bytes, le32. cbn [h_op h_size h_f0 h_f1 h_u0 h_u1 h_u2 h_u3 h_u4 h_u5 app words].
+  rewrite !de32_le32 by assumption. reflexivity.
+Qed.
+
+(* the 32-bit word of the model's frame that sits at byte offset o of the C struct *)
+Definition word_at (h : hdr) (o : Z) : N := nth (Z.to_nat (o / 4)) (words (hdr_bytes h)) 0.
+
+(* every accessor of the model reads the header word at the offset the source declares for the field it stands for;
+   64-bit fields (generation, timeout) are the two words from their offset on; the frame is sizeof(header) bytes;
+   time_t is 64 bit (to_time_t is the identity) *)
+Lemma link_layout h : hdr_ok h ->
+  Z.of_nat (length (hdr_bytes h)) = g_size_of_header /\ g_size_of_time_t = 8%Z /\
+  word_at h g_off_opcode = h_op h /\ word_at h g_off_size = h_size h /\
+  word_at h g_off_filler = h_f0 h /\ word_at h (g_off_filler + 4) = h_f1 h /\
+  word_at h g_off_fetch_current_gen = h_u0 h /\ word_at h (g_off_fetch_current_gen + 4) = h_u1 h /\
+  word_at h g_off_fetch_key_len = h_u2 h /\ word_at h (g_off_fetch_key_len + 4) = h_u3 h /\
+  word_at h g_off_rise_trigger_len = h_u0 h /\
+  word_at h g_off_store_timeout = h_u0 h /\ word_at h (g_off_store_timeout + 4) = h_u1 h /\
+  word_at h g_off_store_key_len = h_u2 h /\ word_at h g_off_store_data_len = h_u3 h /\
+  word_at h g_off_store_triggers_len = h_u4 h /\
+  word_at h g_off_data_generation = h_u0 h /\ word_at h (g_off_data_generation + 4) = h_u1 h /\
+  word_at h g_off_data_timeout = h_u2 h /\ word_at h (g_off_data_timeout + 4) = h_u3 h /\
+  word_at h g_off_data_data_len = h_u4 h /\ word_at h g_off_data_triggers_len = h_u5 h /\
+  word_at h g_off_out_stats_keys = h_u0 h /\ word_at h g_off_out_stats_triggers = h_u1 h.
+Proof.
+  intros OK. unfold word_at. rewrite (words_hdr_bytes h OK). repeat split; reflexivity.
+Qed.
